@@ -23,10 +23,13 @@ import resource
 import shutil
 import stat
 import subprocess
+import sys
 import time
 
 from vplib import common, hist
 from vplib.common import coq_str, coq_list, coq_bool
+
+sys.setrecursionlimit(12000)       # the driver itself parses and copies deeply nested JSON
 
 FIX = os.path.join(common.REPO, "resources", "test", "validate")
 T_LIMIT = 20                 # seconds of wall clock per validation
@@ -34,7 +37,10 @@ AS_LIMIT = 2 << 30           # address space of the child
 U32 = 4294967295
 IMPORTS = ["Base.Bytes", "Model.VersionNum", "Model.VCode", "Model.KnownC17", "Corr.CheckVCode"]
 
-SLUGS = ["blank-id", "version-gap", "empty-manifest-entry", "empty-pps-debug", "wide-padding", "quadratic-path"]
+NEED = {"blank-id": {"blank-id"}, "unwrap-none": {"empty-manifest-entry"}, "sub-overflow": {"empty-pps-debug"},
+        "fmt-width": {"wide-padding"}, "timeout": {"version-gap", "quadratic-path"}, "oom": {"version-gap", "quadratic-path"},
+        "arith-overflow": {"version-gap"}, "unwrap-unit": {"uri-colon-segment"}}
+SLUGS = ["uri-colon-segment", "blank-id", "version-gap", "empty-manifest-entry", "empty-pps-debug", "wide-padding", "quadratic-path"]
 
 
 # --------------------------------------------------------------------------- JSON trees with duplicate keys
@@ -132,6 +138,8 @@ def panic_kind(msg):
         return "fmt-width"
     if "with overflow" in msg:
         return "arith-overflow"
+    if "Result::unwrap()" in msg and "`Err` value: ()" in msg:
+        return "unwrap-unit"
     if "Result::unwrap()" in msg:
         return "unwrap-err"
     return "other"
@@ -278,18 +286,20 @@ def features(obj):
     """per inventory.json of an object root: what the Coq classifiers are evaluated on"""
     feats = []
     for d, p in inventory_files(obj):
-        f = {"where": d or "root", "id": None, "keys": None, "wide": [], "lens": None, "path": (0, 0), "ainv": None}
+        f = {"where": d or "root", "id": None, "keys": None, "wide": [], "lens": None, "path": (0, 0), "ainv": None, "uris": []}
         try:
             data = open(p, "rb").read()
         except OSError:
             continue
         t = jload_pairs(data)
         if not isinstance(t, O):
+            fallback_features(data, f)
             feats.append(f)
             continue
         idv = first(t, "id")
         if isinstance(idv, str):
             f["id"] = idv
+            f["uris"].append(idv)
         vers = first(t, "versions")
         vnums = []
         if isinstance(vers, O):
@@ -321,6 +331,10 @@ def features(obj):
                         see_path(s)
         if isinstance(vers, O):
             for k, v in vers:
+                usr = first(v, "user") if isinstance(v, O) else None
+                adr = first(usr, "address") if isinstance(usr, O) else None
+                if isinstance(adr, str):
+                    f["uris"].append(adr)
                 stt = first(v, "state") if isinstance(v, O) else None
                 if isinstance(stt, O):
                     for dk, arr in stt:
@@ -331,6 +345,43 @@ def features(obj):
         f["ainv"] = abstract_inventory(t)
         feats.append(f)
     return feats
+
+
+STR_RE = re.compile(rb'"((?:[^"\\]|\\.)*)"')
+
+
+def fallback_features(data, f):
+    """the document is beyond Python's JSON parser (nesting depth, invalid tail ...): collect the
+    candidates textually - a superset of what the validator can have read before it stopped"""
+    data = data[:8 << 20]
+
+    def unq(bs):
+        try:
+            return json.loads(b'"' + bs + b'"')
+        except Exception:
+            return bs.decode("utf-8", "replace")
+    for m in re.finditer(rb'"(id|address)"\s*:\s*"((?:[^"\\]|\\.)*)"', data):
+        v = unq(m.group(2))
+        f["uris"].append(v)
+        if m.group(1) == b"id" and f["id"] is None:
+            f["id"] = v
+    keys = []
+    for m in re.finditer(rb'"(v[0-9]+)"\s*:', data):
+        pv = vparse(m.group(1).decode())
+        if pv:
+            keys.append(pv[0])
+            if pv[1] > 60000:
+                f["wide"].append(pv)
+    if keys:
+        f["keys"] = keys
+    if re.search(rb'"[0-9a-fA-F]{32,128}"\s*:\s*\[\s*\]', data):
+        f["lens"] = [0]
+    best = (0, 0)
+    for m in STR_RE.finditer(data):
+        sl = m.group(1).count(b"/")
+        if sl * len(m.group(1)) > best[0] * best[1]:
+            best = (sl, len(m.group(1)))
+    f["path"] = best
 
 
 def abstract_inventory(t):
@@ -389,9 +440,7 @@ def class_terms(feats, failure_kinds, dbg):
     out = []
     need = set()
     for k in failure_kinds:
-        need |= {"blank-id": {"blank-id"}, "unwrap-none": {"empty-manifest-entry"}, "sub-overflow": {"empty-pps-debug"},
-                 "fmt-width": {"wide-padding"}, "timeout": {"version-gap", "quadratic-path"},
-                 "oom": {"version-gap", "quadratic-path"}, "arith-overflow": {"version-gap"}}.get(k, set())
+        need |= NEED.get(k, set())
     for f in feats:
         if "blank-id" in need and f["id"] is not None:
             out.append(("blank-id", "known_blank_id %s" % coq_str(short(f["id"]))))
@@ -404,12 +453,22 @@ def class_terms(feats, failure_kinds, dbg):
                 out.append(("wide-padding", "known_wide %d %d" % (n, w)))
         if "quadratic-path" in need and f["path"][0] > 0:
             out.append(("quadratic-path", "known_quadratic %d %d" % f["path"]))
+        if "uri-colon-segment" in need:
+            for u in f["uris"][:40]:
+                out.append(("uri-colon-segment", "known_colon_uri %s" % coq_str(short(u, 300))))
         if "empty-pps-debug" in need and f["ainv"] and dbg:
             out.append(("empty-pps-debug", "known_empty_pps true %s" % f["ainv"]))
     return out
 
 
 # --------------------------------------------------------------------------- building object roots
+
+def rm_tree(p):
+    """remove a tree that may be deeper than PATH_MAX or hold special files"""
+    if os.path.lexists(p):
+        subprocess.run(["rm", "-rf", "--", p], stdout=subprocess.DEVNULL, stderr=subprocess.DEVNULL)
+        shutil.rmtree(p, ignore_errors=True)
+
 
 def write_file(p, data):
     os.makedirs(os.path.dirname(p), exist_ok=True)
@@ -467,7 +526,7 @@ def set_inventory(obj, data, rng, where="", sync=True):
 
 def new_root(dest, base):
     """storage root dest/ with the base object copied to dest/obj"""
-    shutil.rmtree(dest, ignore_errors=True)
+    rm_tree(dest)
     os.makedirs(dest)
     write_file(os.path.join(dest, "0=ocfl_1.1"), b"ocfl_1.1\n")
     obj = os.path.join(dest, "obj")
@@ -761,10 +820,10 @@ def fam_edit(rng, obj):
         v = rng.choice(ABSURD[last])
         parent[i] = (parent[i][0], v) if isinstance(parent, O) else v
         kind = "absurd/" + last
-    elif r < 0.80 and isinstance(node, str) and isinstance(parent, list):
+    elif r < 0.80 and isinstance(node, str) and isinstance(parent, list) and not isinstance(parent, O):
         parent[i] = g_path(rng)
         kind = "path"
-    elif r < 0.86 and isinstance(parent, list):
+    elif r < 0.86 and isinstance(parent, list) and not isinstance(parent, O):
         parent.append(rng.choice(list(parent) + [g_path(rng)]))
         kind = "path-add"
     else:
@@ -776,14 +835,14 @@ def fam_edit(rng, obj):
 
 # --------------------------------------------------------------------------- family: directory structure
 
-def deep_dirs(base, depth):
+def deep_dirs(base, depth, name="d"):
     cwd = os.getcwd()
     try:
         os.makedirs(base, exist_ok=True)
         os.chdir(base)
         for _ in range(depth):
-            os.mkdir("d")
-            os.chdir("d")
+            os.mkdir(name)
+            os.chdir(name)
     except OSError:
         pass
     finally:
@@ -858,11 +917,11 @@ def fam_structure(rng, obj, allow_deep=True):
             return "struct/extra-dir"
         if k == 8:
             d = rng.choice(dirs)
-            deep_dirs(os.path.join(d, "deep"), rng.choice([5, 60, 200]))
+            deep_dirs(os.path.join(d, "deep"), rng.choice([5, 60, 150]))
             return "struct/deep-dirs"
         if k == 9 and allow_deep:
             d = rng.choice(dirs)
-            deep_dirs(os.path.join(d, "deep"), 2100)      # path longer than PATH_MAX
+            deep_dirs(os.path.join(d, "deep"), 18, "n" * 250)      # path longer than PATH_MAX
             return "struct/deeper-than-path-max"
         if k == 10 and vdirs:
             p = rng.choice(vdirs)
@@ -963,6 +1022,12 @@ def sval_term(v):
     return "SOther"
 
 
+def cval_term(v):
+    if isinstance(v, O):
+        return "CObj"
+    return "CSeq" if isinstance(v, list) else "CScalar"
+
+
 BAD_BODIES = [5, "x", [], None]      # not an object -> E047, no version
 
 
@@ -1009,9 +1074,16 @@ def fam_versions(rng, obj):
     vers, abst = O(), []
     for k in keys:
         good = rng.choice(bodies)
-        ok = rng.random() < 0.88
-        vers.append((k, copy.deepcopy(good) if ok else bad_body(rng, good)))
-        abst.append("(%s, %s)" % (coq_str(k), coq_bool(ok)))
+        r0 = rng.random()
+        if r0 < 0.86:
+            vers.append((k, copy.deepcopy(good)))
+            abst.append("(%s, BSome)" % coq_str(k))
+        elif r0 < 0.98:
+            vers.append((k, bad_body(rng, good)))
+            abst.append("(%s, BNone)" % coq_str(k))
+        else:
+            vers.append((k, rng.choice([[1], ["x", "y"], [[]]])))        # non-empty array: the parse stops here
+            abst.append("(%s, BSeq)" % coq_str(k))
     valid = [k for k in keys if vparse(k)]
     r = rng.random()
     if valid and r < 0.6:
@@ -1026,13 +1098,13 @@ def fam_versions(rng, obj):
     fields = []
     for k, v in t:
         if k == "versions":
-            fields.append((k, vers, "IVersions (Some %s)" % coq_list(abst)))
+            fields.append((k, vers, "IVersions (VObj %s)" % coq_list(abst)))
         elif k == "head":
             fields.append((k, head, "IHead %s" % sval_term(head)))
         elif k == "manifest":
-            fields.append((k, v, "IManifest true"))
+            fields.append((k, v, "IManifest CObj"))
         elif k == "fixity":
-            fields.append((k, O(), "IFixity true"))
+            fields.append((k, O(), "IFixity CObj"))
         else:
             name = {"id": "IId", "type": "IType", "digestAlgorithm": "IAlg", "contentDirectory": "ICdir"}[k]
             fields.append((k, v, "%s %s" % (name, sval_term(v))))
@@ -1071,14 +1143,14 @@ def fam_header(rng, obj):
         if k in ITEM:
             fields.append((k, v, "%s %s" % (ITEM[k], sval_term(v))))
         elif k == "manifest":
-            fields.append((k, v, "IManifest %s" % coq_bool(isinstance(v, O))))
+            fields.append((k, v, "IManifest %s" % cval_term(v)))
         elif k == "versions":
             if isinstance(v, O):
-                fields.append((k, v, "IVersions (Some %s)" % coq_list("(%s, true)" % coq_str(vk) for vk, _ in v)))
+                fields.append((k, v, "IVersions (VObj %s)" % coq_list("(%s, BSome)" % coq_str(vk) for vk, _ in v)))
             else:
-                fields.append((k, v, "IVersions None"))
+                fields.append((k, v, "IVersions %s" % ("VSeq" if isinstance(v, list) else "VScalar")))
         else:
-            fields.append((k, v, "IFixity %s" % coq_bool(isinstance(v, O))))
+            fields.append((k, v, "IFixity %s" % cval_term(v)))
     if rng.random() < 0.2:
         k = rng.choice(["id", "head", "contentDirectory", "type"])
         v = rng.choice([x for x in HDR[k] if x is not MISSING and x != "KEEP"])
@@ -1136,7 +1208,7 @@ def gen_abs_inventory(rng, alg, head, truth, weird):
             if r < 0.4:
                 del st[p]
             elif r < 0.8:
-                st[p] = rng.randint(1, 6)
+                st[p] = rng.randint(1, 6)   # another content
             else:
                 st[rng.randint(7, 9)] = st[p]
         ents = []
@@ -1164,7 +1236,7 @@ def gen_abs_inventory(rng, alg, head, truth, weird):
 
 
 def fam_cross(rng, dest):
-    shutil.rmtree(dest, ignore_errors=True)
+    rm_tree(dest)
     obj = os.path.join(dest, "obj")
     os.makedirs(obj)
     write_file(os.path.join(dest, "0=ocfl_1.1"), b"ocfl_1.1\n")
@@ -1222,6 +1294,14 @@ def fam_known(rng, obj, which):
     elif which == "quadratic-path":
         st = first(vers[0][1], "state")
         st[0] = (st[0][0], ["/".join(["a"] * 150000)])
+    elif which == "uri-colon-segment":
+        if rng.random() < 0.5:
+            setk("id", rng.choice([":", "1:x", "::", "%3A:"]))
+        else:
+            body = vers[0][1]
+            for i, (k, v) in enumerate(body):
+                if k == "user":
+                    body[i] = (k, O([("name", "n"), ("address", rng.choice([":", "-:x"]))]))
     elif which == "empty-manifest-entry":
         man = first(t, "manifest")
         dgx = "ab" * (len(man[0][0]) // 2)
@@ -1366,7 +1446,7 @@ def do_case(spec):
         res["driver_error"] = "%s: %s" % (type(e).__name__, e)
     finally:
         if not spec.get("keep"):
-            shutil.rmtree(dest, ignore_errors=True)
+            rm_tree(dest)
     return res
 
 
@@ -1388,7 +1468,7 @@ def do_repo(spec):
     root = os.path.join(spec["tmp"], "repo-%04d" % spec["idx"])
     res = {"idx": spec["idx"], "n": len(spec["members"])}
     try:
-        shutil.rmtree(root, ignore_errors=True)
+        rm_tree(root)
         os.makedirs(root)
         write_file(os.path.join(root, "0=ocfl_1.1"), b"ocfl_1.1\n")
         bystanders = []
@@ -1398,7 +1478,7 @@ def do_repo(spec):
             build_case(m, tmp)
             os.makedirs(os.path.dirname(sub), exist_ok=True)
             os.rename(os.path.join(tmp, "obj"), sub)
-            shutil.rmtree(tmp, ignore_errors=True)
+            rm_tree(tmp)
             if m["family"] == "pristine":
                 bystanders.append(os.path.relpath(sub, root))
         res["roots"] = scan_object_roots(root)
@@ -1408,7 +1488,7 @@ def do_repo(spec):
     except Exception as e:
         res["driver_error"] = "%s: %s" % (type(e).__name__, e)
     finally:
-        shutil.rmtree(root, ignore_errors=True)
+        rm_tree(root)
     return res
 
 
@@ -1451,11 +1531,15 @@ def make_specs(ctx, bases, libs, vh, rocfl):
             s["base_name"], s["base"] = base
         s.update(kw)
         specs.append(s)
-    known = ["blank-id", "version-gap", "wide-padding", "quadratic-path", "empty-manifest-entry"]
+    known = ["blank-id", "version-gap", "wide-padding", "quadratic-path", "empty-manifest-entry", "uri-colon-segment"]
     if not ctx.quick():
         known = known + ["version-gap", "version-gap", "wide-padding", "quadratic-path", "blank-id"]
+    one_version = [b for b in bases if b[0] == "fx:valid/minimal_one_version_one_file"] or [("lib-sha512", libs["lib-sha512"])]
     for w in known:
-        add("known", ("lib-sha512", libs["lib-sha512"]) if w != "blank-id" or rng.random() < 0.5 else ("lib-sha256", libs["lib-sha256"]), which=w)
+        if w == "wide-padding":           # a single version: no E013 that would end validation before the number is printed
+            add("known", one_version[0], which=w)
+        else:
+            add("known", ("lib-sha512", libs["lib-sha512"]) if w != "blank-id" or rng.random() < 0.5 else ("lib-sha256", libs["lib-sha256"]), which=w)
     for b in bases:
         add("pristine", b)
     for fam in ("bytes", "grammar", "edit", "structure", "combo"):
@@ -1500,7 +1584,7 @@ def evaluate(ctx, specs, results):
                 root_codes = r["vh"].get("codes", {}).get("object", {})
                 obs = coq_list("(%d, %d)" % (code_num(k), v) for k, v in sorted(root_codes.items()))
                 terms.append((r["idx"], "corr:visit", "check_visit %s %s %s" % (c["items"], coq_bool(r["vh"]["kind"] == "panic"), obs)))
-                if c.get("w001") and r["vh"]["kind"] == "verdict":
+                if c.get("w001") and r["vh"]["kind"] == "verdict" and "BSeq" not in c["items"]:
                     w = "W001" in r["vh"].get("warns", {}).get("object", {})
                     terms.append((r["idx"], "corr:w001", "check_w001 %s %s" % (c["keys"], coq_bool(w))))
             if r["cli"]["kind"] in ("exit", "panic"):
@@ -1549,9 +1633,7 @@ def evaluate(ctx, specs, results):
         explained = True
         if msg:
             # every failure kind must be covered by a classifier that holds on this input and is a recorded known finding
-            need = {"blank-id": {"blank-id"}, "unwrap-none": {"empty-manifest-entry"}, "sub-overflow": {"empty-pps-debug"},
-                    "fmt-width": {"wide-padding"}, "timeout": {"version-gap", "quadratic-path"},
-                    "oom": {"version-gap", "quadratic-path"}, "arith-overflow": {"version-gap"}}
+            need = NEED
             hits = set()
             for fk in r["fk"]:
                 ok_slugs = {tag[6:] for tag, _, v in evs if tag.startswith("class:") and v == "true"} & need.get(fk, set())
